@@ -98,7 +98,7 @@ pub fn run(ctx: &Ctx, out: &mut Out) {
     let my_srv = d.srv_value.clone();
     let other_srv = srv_value(&RefKey::from_seed(&rng.bytes(32)).public());
     // (a) all version lists up to length L over the vocabulary x SRV {absent, correct, wrong}
-    let maxlen = if ctx.thorough { 6 } else { 4 };
+    let maxlen = 6; // the whole scope of the quantifier is cheap enough for the quick tier too
     let total: u64 = (0..=maxlen).map(|l| 5u64.pow(l)).sum();
     let mut cases = Vec::new();
     let mut idx = ctx.shard;
